@@ -797,9 +797,26 @@ fn card_of(d: &str, h: &str, w: &str, data: &str) -> Result<Option<matrix_card::
         if c.digit_count() != num::<u8>(d)? || c.height() != num::<u8>(h)? || c.width() != num::<u8>(w)? {
             return Err("DISAGREE card getters".into());
         }
+        // a card copied by `clone_from` INTO A CARD THAT HELD ANOTHER CARD (other digit count, all-zero cells) is the card that was
+        // copied — and it is this copy that the rest of the line reads its cells from
+        let d2: u8 = if c.digit_count() == 1 { 2 } else { 1 };
+        if let Some(mut other) = matrix_card::MatrixCard::from_data(d2, c.height(), c.width(), vec![0u8; d2 as usize * c.height() as usize * c.width() as usize]) {
+            other.clone_from(c);
+            if &other != c || other.digit_count() != c.digit_count() || other.height() != c.height() || other.width() != c.width() || other.data() != c.data() {
+                return Err("DISAGREE clone_from into a card that held another card".into());
+            }
+            return Ok(Some(other));
+        }
     }
     Ok(c)
 }
+
+/// Is there a way to make a value of a checked type WITHOUT the check?  `Default` is the one the language offers (a derive is one word).
+/// Autoref-free specialisation: the inherent method exists only when `T: Default`, and an inherent method wins over a trait method.
+struct DefaultProbe<T>(std::marker::PhantomData<T>);
+trait NoDefault { fn made(&self) -> Option<String> { None } }
+impl<T> NoDefault for DefaultProbe<T> {}
+impl<T: Default + std::fmt::Debug> DefaultProbe<T> { fn made(&self) -> Option<String> { Some(format!("{:?}", T::default())) } }
 
 fn lcg_next(x: u64) -> u64 {
     x.wrapping_mul(6364136223846793005).wrapping_add(1442695040888963407)
@@ -809,6 +826,10 @@ fn run_op(a: &[&str]) -> R {
     Ok(match a {
         ["ns.new", s] => {
             let t = text(s)?;
+            // "the constructors are the only way to a credential": a `Default` value would be a credential no constructor accepted
+            if let Some(v) = DefaultProbe::<NormalizedString>(std::marker::PhantomData).made() {
+                return Ok(format!("DISAGREE NormalizedString::default() makes a credential without the checks: {}", v));
+            }
             let r1 = NormalizedString::new(&t);
             // all constructors and conversions must agree
             let r2 = NormalizedString::from_str(&t);
